@@ -1,4 +1,5 @@
 import TlsModel.Rsa
+import TlsModel.Der
 /-
   tlslite/utils/python_dsakey.py: `sign` / `verify` at the level of the integers (r, s).
   The DER wrapping (`encode_sequence(encode_integer(r), encode_integer(s))`, `remove_sequence`,
@@ -39,5 +40,29 @@ def verifyRS (key : Key) (r s : Nat) (data : Bytes) : Bool :=
     let v := ((powMod key.g u1 key.p * powMod key.y u2 key.p) % key.p) % key.q
     r == v
   else false
+
+/-- `sign(data)`: DER `SEQUENCE { INTEGER r, INTEGER s }` -/
+def sign (key : Key) (k : Nat) (data : Bytes) : Bytes :=
+  let rs := signRS key k data
+  Der.encodeSequence [Der.encodeInteger rs.1, Der.encodeInteger rs.2]
+
+/-- `verify(signature, hashData)` on bytes: a string that is not a DER pair of integers is an
+    invalid signature (`except (UnexpectedDER, IndexError, AssertionError): return False`) -/
+def verify (key : Key) (signature data : Bytes) : Bool :=
+  if signature.isEmpty then false
+  else
+    match Der.removeSequence signature with
+    | .error () => false
+    | .ok (body, rest) =>
+      if ¬ rest.isEmpty then false
+      else
+        match Der.removeInteger body with
+        | .error () => false
+        | .ok (r, rest1) =>
+          match Der.removeInteger rest1 with
+          | .error () => false
+          | .ok (s, rest2) =>
+            if ¬ rest2.isEmpty then false
+            else verifyRS key r s data
 
 end Tls.Dsa
